@@ -152,6 +152,26 @@ pub fn size_family(n: usize) -> Vec<(Kind, usize, usize, Program)> {
     out
 }
 
+/// Hand-picked degenerate programs appended to every program-space based check: empty operands of
+/// multiply, many commitments, many constraints on one gate, closures that only append data,
+/// three closures.
+pub fn extra_programs() -> Vec<Program> {
+    [
+        "Xnn Kd",
+        "C Xnc Kd Xcn Ko",
+        "C Xnn R[Xnn Kd]",
+        "C C C C C Kd Kb",
+        "C M Kg Kd Kc Ka Kb Ke Kn Kg Kd Kc Kr Ko",
+        "Kn Kn C Kn Kb Kn",
+        "C R[T] R[T Z] R[Z T M Kc]",
+        "A A A A A Kd R[A A A Kd]",
+        "C M Kg R[Z Z Z M Kc] R[Z] R[]",
+    ]
+    .iter()
+    .map(|s| Program::parse(s).expect("extra program"))
+    .collect()
+}
+
 /// Value-run templates: (program text, number of explicit value slots)
 pub fn value_templates() -> Vec<(Program, usize)> {
     let t = |s: &str, k: usize| (Program::parse(s).expect("template"), k);
